@@ -8,7 +8,7 @@ from ..models import linktable
 ID = "C17"
 NEEDS_SHIM = False
 RULE = (
-    "every table is handed over written with tuples, with lists for the links, for the pairs, or for both (by case index); "
+    "every table is handed over written with tuples, with lists for the links, for the pairs, or for both, and with reverse flags as bool, 0/1 or NumPy booleans (by case index); "
     "enumerated: all 625 link tables over 2 faces x 1 axis (exhaustive in both tiers); every single edit (both tiers) and "
     "every double edit (thorough: exhaustive; quick: seeded sample) of 7 consistent base tables over 2 faces x 2 axes and "
     "3 faces, where an edit replaces a link by None or by any (face in {0,1,2,7}, axis in {X,Y,Q}, reverse) triple; plus "
@@ -189,6 +189,12 @@ def run_case(ctx, desc):
                 (list(lk) if (lk is not None and spelling != "list-pairs") else lk) for lk in lr) for a, lr in d.items()} for f, d in tab.items()}
 
         fc = {k: respell(v) for k, v in fc.items()}
+    # ... and so is a table whose reverse flags are 1 / 0 or NumPy booleans instead of True / False
+    flags = ["bool", "int", "numpy"][((ctx.case_index or 0) // 4) % 3]
+    if flags != "bool":
+        conv = (lambda v: int(v)) if flags == "int" else (lambda v: np.bool_(v))
+        fc = {k: {f: {a: type(lr)(lk if lk is None else type(lk)([lk[0], lk[1], conv(lk[2])]) for lk in lr) for a, lr in d.items()}
+                  for f, d in v.items()} for k, v in fc.items()}
     ds = xr.Dataset(coords=coords)
     if fam == "facedim-is-a-variable" and "tile" not in ds.coords:
         ds["tile"] = ("face", np.arange(nf))  # ... as a data variable
@@ -199,7 +205,7 @@ def run_case(ctx, desc):
         accepted, err = False, e
     links = [lk for d in t.values() for lr in d.values() for lk in lr if lk is not None]
     kinds = sorted({("self" if False else "x", lk[1], lk[2]) for lk in links})
-    ckey = (fam, len(links), kinds, expect, spelling)
+    ckey = (fam, len(links), kinds, expect, spelling, flags)
     ctx.judged(ckey, len(links) > 0)
     ctx.count("accepted" if accepted else "refused")
     ctx.count("model_accepts" if expect else "model_refuses")
@@ -210,7 +216,7 @@ def run_case(ctx, desc):
     if accepted != expect:
         ctx.violation(
             "accept-iff-reciprocal",
-            f"{fam} (written with {spelling}): Grid {'accepted' if accepted else 'refused (' + type(err).__name__ + ': ' + str(err)[:120] + ')'} "
+            f"{fam} (written with {spelling}, {flags} flags): Grid {'accepted' if accepted else 'refused (' + type(err).__name__ + ': ' + str(err)[:120] + ')'} "
             f"a table the predicate {'accepts' if expect else 'rejects'}: {to_jsonable_table(t)}",
             desc=dict(desc, table=to_jsonable_table(t)),
         )
